@@ -656,6 +656,10 @@ def _op_sign(ctx, W, st):
             ctx.violate("C05", "sign-raised", {"exc": res[1], "msg": res[2], "supply": st.get("supply")})
     cp.m, cp.u = m2, u2
     cp.signed_passes += 1
+    pass_key = (tuple(sorted(st["keys"])), ht_req, None if st.get("inputs") is None else tuple(st["inputs"]))
+    if pass_key in getattr(cp, "passes_seen", set()):
+        ctx.fault("duplicate_pass")
+    cp.passes_seen = getattr(cp, "passes_seen", set()) | {pass_key}
     if cp.signed_passes >= 2:
         ctx.nontrivial = True
     after_v = _verdicts(W, cp)
@@ -738,6 +742,7 @@ def _op_sign(ctx, W, st):
                                                           "why": av.why})
         if S_old and len(S_new) >= m and len(S_old) < m:
             ctx.probe("partial_then_complete")
+        ctx.sig("%s|%s|m%d/n%d|ht%02x|%s|%d->%d" % (W.sig, spec["kind"], m, len(listed), ht_req, st.get("supply"), len(S_old), len(S_new)))
         # (ii) canonical form of what was written
         for sig in _new_sigs(_unlock_items(before_m, j), _unlock_items(m2, j)):
             if len(sig) < 9 or sig[0] != 0x30 or sig == PLACEHOLDER:
